@@ -15,6 +15,7 @@ pub mod c12;
 pub mod c13;
 pub mod c14;
 pub mod c15;
+pub mod c16;
 pub mod c17;
 pub mod c18;
 pub mod c19;
@@ -36,6 +37,7 @@ pub fn lookup(id: &str) -> Option<&'static dyn Property> {
         "C13" => &c13::C13,
         "C14" => &c14::C14,
         "C15" => &c15::C15,
+        "C16" => &c16::C16,
         "C17" => &c17::C17,
         "C18" => &c18::C18,
         "C19" => &c19::C19,
